@@ -1,0 +1,115 @@
+//go:build verif
+
+// Accessors for the /verif runtime-monitoring harness (domain vspdy, property
+// C40). Add-only; compiled only with -tags verif.
+
+package bfe_spdy
+
+import (
+	"fmt"
+	"net"
+	"runtime/debug"
+	"sync"
+)
+
+import (
+	"github.com/baidu/go-lib/web-monitor/metrics"
+)
+
+import (
+	http "github.com/bfenetworks/bfe/bfe_http"
+)
+
+// VerifPanic is one panic of a serve goroutine seen by notePanic.
+type VerifPanic struct {
+	Remote string
+	Value  string
+	Stack  string
+}
+
+var (
+	verifPanMu  sync.Mutex
+	verifPanics []VerifPanic
+)
+
+func init() {
+	prev := testHookOnPanic
+	testHookOnPanic = func(sc *serverConn, e interface{}) bool {
+		verifPanMu.Lock()
+		verifPanics = append(verifPanics, VerifPanic{
+			Remote: sc.remoteAddrStr,
+			Value:  fmt.Sprint(e),
+			Stack:  string(debug.Stack()),
+		})
+		verifPanMu.Unlock()
+		if prev != nil {
+			return prev(sc, e)
+		}
+		return false
+	}
+}
+
+// VerifPanics returns the serve-goroutine panics recorded so far.
+func VerifPanics() []VerifPanic {
+	verifPanMu.Lock()
+	defer verifPanMu.Unlock()
+	return append([]VerifPanic(nil), verifPanics...)
+}
+
+// VerifEnableState gives the package-level SpdyState real counters (they are
+// nil, i.e. inert, unless the embedding server registers them) so that
+// SpdyPanicConn / SpdyPanicStream etc. can be read through GetSpdyState().
+// Call once before serving.
+func VerifEnableState() {
+	s := &state
+	for _, p := range []**metrics.Counter{
+		&s.SpdyTimeoutConn, &s.SpdyTimeoutReadStream, &s.SpdyTimeoutWriteStream,
+		&s.SpdyErrInvalidSynStream, &s.SpdyErrInvalidDataStream, &s.SpdyErrFlowControl,
+		&s.SpdyErrBadRequest, &s.SpdyErrStreamAlreadyClosed, &s.SpdyErrStreamCancel,
+		&s.SpdyErrMaxStreamPerConn, &s.SpdyErrGotReset, &s.SpdyErrNewFramer,
+		&s.SpdyUnknownFrame, &s.SpdyPanicConn, &s.SpdyPanicStream,
+		&s.SpdyReqHeaderCompressSize, &s.SpdyReqHeaderOriginalSize,
+		&s.SpdyResHeaderCompressSize, &s.SpdyResHeaderOriginalSize,
+		&s.SpdyReqOverload, &s.SpdyConnOverload,
+	} {
+		if *p == nil {
+			*p = new(metrics.Counter)
+		}
+	}
+}
+
+// VerifConnEnd is the flow-control state of a server connection after its
+// serve loop has returned (read on the goroutine that ran serve, so no race).
+type VerifConnEnd struct {
+	SendWindow  int32  // conn-level outbound window (sc.flow)
+	RecvWindow  int32  // conn-level inbound window (sc.inflow)
+	OpenStreams int    // len(sc.streams), must be 0
+	CurOpen     uint32 // sc.curOpenStreams
+	MaxStreamID uint32
+	InGoAway    bool
+	GoAwayCode  uint32
+}
+
+// VerifServeConn runs the server side of one SPDY/3.1 connection on a plain
+// net.Conn through the same unexported path NewProtoHandler uses
+// (handleConn + serve). It returns when the connection is finished; nil means
+// handleConn refused the connection.
+func VerifServeConn(conf *Server, hs *http.Server, c net.Conn, h http.Handler) *VerifConnEnd {
+	if conf == nil {
+		conf = new(Server)
+	}
+	sc := conf.handleConn(hs, c, h)
+	if sc == nil {
+		return nil
+	}
+	sc.serve()
+	return &VerifConnEnd{
+		SendWindow:  sc.flow.n,
+		RecvWindow:  sc.inflow.n,
+		OpenStreams: len(sc.streams),
+		CurOpen:     sc.curOpenStreams,
+		MaxStreamID: sc.maxStreamID,
+		InGoAway:    sc.inGoAway,
+		GoAwayCode:  uint32(sc.goAwayCode),
+	}
+}
